@@ -360,6 +360,9 @@ func (m *monitor) handle(ctx context.Context) (codes.Code, string) {
 		case <-ctx.Done():
 			t.Stop()
 			reason = "ctx"
+		case <-r.gate: // only opened by the "release everything" paths (virtual time cannot advance while a stop call is parked on a mutex)
+			t.Stop()
+			reason = "gate"
 		}
 	}
 	code, msg := r.spec.Code, ""
